@@ -32,12 +32,26 @@ def mk_wsgi(falcon, headers, scheme='http', path='/p', qs='', root='', remote=RE
     return falcon.Request(env)
 
 
-def mk_asgi(falcon, headers, scheme='http', path='/p', qs='', root='', remote=REMOTE, server=SERVER):
+ASGI_SCHEMES = [('http', 'http'), ('http', 'https'), ('http', None), ('websocket', 'ws'), ('websocket', 'wss'),
+                ('websocket', None)]
+
+
+def mk_asgi(falcon, headers, scheme='http', path='/p', qs='', root='', remote=REMOTE, server=SERVER, scope_type=None):
+    """scheme 'ws'/'wss' (or scope_type='websocket') builds a websocket scope; scheme=None leaves the
+    key out, so that the scope type's default (http / ws) applies"""
     import falcon.asgi
-    scope = {'type': 'http', 'asgi': {'version': '3.0'}, 'http_version': '1.1', 'method': 'GET',
-             'scheme': scheme, 'path': path, 'raw_path': path.encode(), 'query_string': qs.encode(),
+    if scope_type is None:
+        scope_type = 'websocket' if scheme in ('ws', 'wss') else 'http'
+    scope = {'type': scope_type, 'asgi': {'version': '3.0'}, 'http_version': '1.1',
+             'path': path, 'raw_path': path.encode(), 'query_string': qs.encode(),
              'root_path': root, 'headers': [(k.lower().encode('latin-1'), v.encode('latin-1')) for k, v in headers],
-             'server': server}
+             }
+    if server is not None:
+        scope['server'] = server
+    if scope_type == 'http':
+        scope['method'] = 'GET'
+    if scheme is not None:
+        scope['scheme'] = scheme
     if remote is not None:
         scope['client'] = (remote, 4711)
 
@@ -432,8 +446,14 @@ def check_host(ctx, model, falcon, quick, fixed=True):
     vals = values_for(ctx, gen_host, 'a.:[]1x ', 500 if quick else 5000, 4 if quick else 5)
     for v in vals:
         for stack, mk in (('wsgi', mk_wsgi), ('asgi', mk_asgi)):
-            https = ctx.rng.random() < 0.5
-            req = mk(falcon, [('Host', v)], scheme='https' if https else 'http')
+            if stack == 'asgi':
+                stype, sch = ctx.rng.choice(ASGI_SCHEMES)
+                https = sch in ('https', 'wss')          # the scheme's default port: ws = 80, wss = 443
+                req = mk(falcon, [('Host', v)], scheme=sch, scope_type=stype)
+                stack = 'asgi' if stype == 'http' and sch else 'asgi-%s-%s' % (stype, sch)
+            else:
+                https = ctx.rng.random() < 0.5
+                req = mk(falcon, [('Host', v)], scheme='https' if https else 'http')
             h, h2 = twice(falcon, req, 'host')
             p, p2 = twice(falcon, req, 'port')
             s, s2 = twice(falcon, req, 'subdomain')
@@ -482,6 +502,22 @@ def check_host(ctx, model, falcon, quick, fixed=True):
             ctx.note_case(('host-fallback', stack, scheme, server[1]), True)
             if got != ((0, 'srv'), (0, server[1]), (0, exp_netloc)):
                 disagree('host-fallback', stack, 'Host', None, got, exp_netloc)
+    # ASGI websocket scopes and scopes without a scheme: the scheme's default port (ws = 80, wss = 443)
+    for stype, sch in ASGI_SCHEMES:
+        eff = sch or ('ws' if stype == 'websocket' else 'http')
+        dflt = 443 if eff in ('https', 'wss') else 80
+        for server in (('srv', 80), ('srv', 443), ('srv', 8080), None):
+            req = mk_asgi(falcon, [], scheme=sch, scope_type=stype, server=server)
+            name, port = server if server else ('localhost', dflt)
+            exp_netloc = name if port == dflt else '%s:%d' % (name, port)
+            got = (read(falcon, req, 'scheme'), read(falcon, req, 'host'), read(falcon, req, 'port'), read(falcon, req, 'netloc'),
+                   read(falcon, req, 'prefix'))
+            ctx.note_case(('host-fallback', 'asgi', stype, sch, server), True)
+            if got != ((0, eff), (0, name), (0, port), (0, exp_netloc), (0, '%s://%s' % (eff, exp_netloc))):
+                ctx.violation('accessor-differs-from-rfc-reading',
+                              {'what': 'ASGI %s scope, scheme %r, server %r, no Host header' % (stype, sch, server),
+                               'accessor': 'scheme/host/port/netloc/prefix', 'stack': 'asgi', 'impl': repr(got),
+                               'expected': repr((eff, name, port, exp_netloc))}, key='rfc-asgi-fallback')
 
 
 def etag_obs(v):
@@ -752,7 +788,7 @@ def check_urls(ctx, model, falcon, quick):
                 hdrs.append(('X-Forwarded-Proto', rng.choice(['https', 'HTTP'])))
                 if rng.random() < 0.5:
                     hdrs.append(('X-Forwarded-Host', 'xf.example.com'))
-            scheme = rng.choice(['http', 'https'])
+            scheme = rng.choice(['http', 'https'] if stack == 'wsgi' else ['http', 'https', 'ws', 'wss', None])
             path = rng.choice(['/', '/a/b', '/a/', '/x%20y', '/é'.encode().decode('latin-1') if stack == 'wsgi' else '/é'])
             qs = rng.choice(['', 'a=1', 'a=1&b=2', 'q=%20'])
             root = rng.choice(['', '/app', '/app/v1'])
